@@ -1,8 +1,13 @@
 #!/usr/bin/env python3
-"""seed_rerun.py [name ...] — apply each kept seeded change to /repo, run its property's checks, undo; update meta.json"""
-import json, os, subprocess, sys, time
+"""seed_rerun.py [name ...] — run each kept seeded change through its property's checks and update meta.json.
+The change is applied to a scratch worktree of /repo (outside /repo and /verif) and the checks are pointed at it with
+VERIF_REPO, so /repo itself is never touched and proof work in /verif can go on meanwhile."""
+import json, os, subprocess, sys, time, shutil
 names = sys.argv[1:] or sorted(os.listdir("/verif/seeded"))
+WT = "/tmp/seed-rerun-wt"
 summary = []
+def sh(c, **kw):
+    return subprocess.run(c, shell=True, capture_output=True, text=True, **kw)
 for name in names:
     d = f"/verif/seeded/{name}"
     mp = f"{d}/meta.json"
@@ -10,25 +15,31 @@ for name in names:
         continue
     meta = json.load(open(mp))
     prop = meta["property"]
-    assert subprocess.run("git -C /repo status --porcelain --untracked-files=no", shell=True, capture_output=True, text=True).stdout.strip() == "", "/repo dirty"
-    r = subprocess.run(f"git -C /repo apply {d}/patch.diff", shell=True, capture_output=True, text=True)
+    sh(f"git -C /repo worktree remove --force {WT}")
+    shutil.rmtree(WT, ignore_errors=True)
+    r = sh(f"git -C /repo worktree add --detach {WT} HEAD")
+    assert r.returncode == 0, r.stderr
     checks = {}
-    if r.returncode != 0:
-        checks["apply_error"] = r.stderr
-    else:
-        try:
+    try:
+        r = sh(f"git -C {WT} apply {d}/patch.diff")
+        if r.returncode != 0:
+            r = sh(f"cd {WT} && patch -p1 --fuzz=3 < {d}/patch.diff")
+        if r.returncode != 0:
+            checks["apply_error"] = (r.stderr + r.stdout)[-600:]
+        else:
             for tier in ("quick", "thorough"):
                 t0 = time.time()
-                r = subprocess.run(["./check", prop, "--tier", tier], cwd="/verif", stdout=subprocess.PIPE, stderr=subprocess.STDOUT, text=True, timeout=7200)
+                r = subprocess.run(["./check", prop, "--tier", tier], cwd="/verif", env=dict(os.environ, VERIF_REPO=WT),
+                                   stdout=subprocess.PIPE, stderr=subprocess.STDOUT, text=True, timeout=7200)
                 lines = [l for l in r.stdout.splitlines() if l.startswith(("VIOLATION", "obligation refuted", "UNDECIDED", "KNOWN", prop))]
                 checks[tier] = {"exit": r.returncode, "wall_s": round(time.time() - t0, 1), "lines": lines[:12]}
-                if r.returncode == 1:
+                if r.returncode == 1 or tier == "quick" and os.environ.get("SEED_QUICK_ONLY"):
                     break
-        finally:
-            subprocess.run("git -C /repo checkout -- .", shell=True)
+    finally:
+        sh(f"git -C /repo worktree remove --force {WT}")
+        shutil.rmtree(WT, ignore_errors=True)
     meta["checks_on_patched_repo"] = checks
     meta["detected"] = any(isinstance(v, dict) and v.get("exit") == 1 for v in checks.values())
     json.dump(meta, open(mp, "w"), indent=1)
-    summary.append((name, prop, meta["detected"], {k: v.get("exit") for k, v in checks.items() if isinstance(v, dict)}))
-for s in summary:
-    print(*s)
+    summary.append((name, prop, meta["detected"], {k: (v.get("exit") if isinstance(v, dict) else "apply_error") for k, v in checks.items()}))
+    print(*summary[-1], flush=True)
